@@ -13,6 +13,21 @@ NOTE = ('Trusted base: rustc nightly MIR/HIR of the type-checked program at -Zmi
         'check, not a proof of the behavioural property; see coverage.not_decided in the evidence.')
 
 CLAIMS = {
+    'C02': dict(
+        technique='field-flow coverage: interprocedural leaf-set dataflow from every leaf field of StarkProof (type closure '
+                  'from the ADT table) to hash-argument / rejecting-comparison sinks with verdict propagation, per layout; '
+                  'result-discipline dataflow; length-guard extraction',
+        text='Decides that no proof field is a free position (each reaches a hash primitive or a rejecting comparison whose '
+             'verdict reaches verify), that no verdict is dropped, and that the four length guards exist. That a changed '
+             'value changes the hash (collision resistance) is not decided; absorb ordering is C08.',
+        ref='4 C02'),
+    'C07': dict(
+        technique='transitive must-pass-through with verdict propagation (per loop iteration), guard extraction, field-flow '
+                  'coverage from fri_verify',
+        text='Decides that every FRI layer iteration folds and decommits with a propagated verdict, that the last-layer check '
+             'and both length guards are on every accepting path, and that every FRI witness/commitment field reaches a '
+             'hash or comparison sink. The probabilistic degree test is not decided.',
+        ref='4 C07'),
     'C01': dict(
         technique='result-discipline dataflow over Reach(verify) (MIR), transitive must-pass-through chains with verdict '
                   'propagation per layout, guard extraction against a frozen guard table, HIR index-range agreement',
